@@ -19,15 +19,20 @@ theorem c09_tparams_match (o : Ord) (fuel : Nat) (r r' : Registry) (tps : List T
     have := addVars_tys o fuel _ _ r _ {} sc h1
     simpa [List.map_map, Function.comp_def] using this
 
-/-- the mock's type-parameter list and every receiver print the names through `Exported`:
-    they are the interface's spelling exactly when the name is `Exported`-normal … -/
-theorem c09_spelling_partial (tps : List TParamD) (h : ∀ t ∈ tps, exported t.name = t.name) :
-    tps.map (fun t => exported t.name) = tps.map (·.name) :=
-  List.map_congr_left h
+/-- the mock's type-parameter list and every receiver print the type-parameter names verbatim
+    (since the fix of F-04; they used to be passed through `Exported`, which broke lower-case
+    type parameters) -/
+theorem c09_spelling (tps : List TParamD) (h : tps ≠ []) :
+    tparamUse tps = s%"[" ++ commaJoin (tps.map (·.name)) ++ s%"]" ∧
+    tparamDecl tps = s%"[" ++ commaJoin (tps.map fun t => t.name ++ s%" " ++ t.typeStr) ++ s%"]" := by
+  cases tps with
+  | nil => exact absurd rfl h
+  | cons t ts => simp [tparamUse, tparamDecl]
 
-/-- … and not otherwise: a lower-case type parameter `t` is declared as `T` while the methods
-    keep using `t` (finding F-04) -/
-theorem c09_lowercase_fails_witness : exported s%"t" = s%"T" ∧ exported s%"t" ≠ s%"t" := by decide
+/-- regression witness for F-04: a lower-case type parameter `t` is declared and used as `t` -/
+theorem c09_lowercase_witness :
+    tparamDecl [⟨s%"t", s%"any", none⟩] = s%"[t any]" ∧ tparamUse [⟨s%"t", s%"any", none⟩] = s%"[t]" := by
+  decide
 
 /-- the representative type argument of the self-check line: an embedded basic type … -/
 theorem c09_ensure_basic (b : Str) (rest : List Ty) :
